@@ -1105,6 +1105,12 @@ func (db *DB) handleMemTableFlush(mt *memTable, dropPrefixes [][]byte) error {
 	if err != nil {
 		return y.Wrap(err, "error while creating table")
 	}
+	// The MANIFEST must not name a table whose directory entry could be lost (compactBuildTables
+	// does the same for the tables it creates).
+	if err := db.syncDir(db.opt.Dir); err != nil {
+		_ = tbl.DecrRef()
+		return y.Wrap(err, "error while syncing the directory of a new table")
+	}
 	// We own a ref on tbl.
 	err = db.lc.addLevel0Table(tbl) // This will incrRef
 	verifFlushDone(tbl)             // verif: observation point (no-op without the tag)
